@@ -49,7 +49,7 @@ class Untranslatable(Exception):
 COQTY = {"node": "nat", "optnode": "option nat", "nodes": "list nat", "bool": "bool", "hist": "list (nat * list nat)",
          "nat": "nat", "trn": "trans", "trns": "list trans", "trnss": "list (list trans)", "str": "string", "strs": "list string",
          "onmap": "list (string * list trans)", "otrn": "option trans", "inv": "invoke", "invs": "list invoke", "event": "event",
-         "ids": "list nat", "cache": "unit", "decision": "on_done_decision", "descent": "descent_decision"}
+         "ids": "list nat", "cache": "unit", "decision": "on_done_decision", "descent": "descent_decision", "dispatch": "dispatch_decision"}
 ELEM = {"nodes": "node", "trns": "trn", "trnss": "trns", "strs": "str", "invs": "inv"}
 NIL = {"nodes": "(@nil nat)", "trns": "(@nil trans)", "ids": "(@nil nat)", "strs": "(@nil string)"}
 KINDS = {"parallel": "is_parallel", "compound": "is_compound", "history": "is_history", "atomic": "is_atomic",
@@ -105,6 +105,12 @@ class TreeFn:
         if isinstance(e, ast.Name):
             if e.id in env:
                 return self.v(e.id), env[e.id]
+            if e.id == "TARGETLESS__":
+                return "DTargetless", "dispatch"
+            if e.id == "NOTFOUND__":
+                return "DNotFound", "dispatch"
+            if e.id == "INTERNAL__":
+                return "DInternal", "dispatch"
             if e.id == "DNONE__":
                 return "DescendNone", "descent"
             if e.id == "DERROR__":
@@ -114,6 +120,16 @@ class TreeFn:
             if e.id == "NOTHING__":
                 return "DNothing", "decision"
             self.fail(e, "unknown name")
+        if isinstance(e, ast.Call) and isinstance(e.func, ast.Name) and e.func.id == "EXTERNAL__" and len(e.args) == 1:
+            a, ta = self.expr(e.args[0], env)
+            if ta != "node":
+                self.fail(e, "EXTERNAL of " + ta)
+            return f"(DExternal {a})", "dispatch"
+        if isinstance(e, ast.Call) and isinstance(e.func, ast.Name) and e.func.id == "RESOLVE__" and len(e.args) == 1:
+            a, ta = self.expr(e.args[0], env)
+            if ta != "trn":
+                self.fail(e, "RESOLVE of " + ta)
+            return f"(resolved_target {a})", "optnode"
         if isinstance(e, ast.Call) and isinstance(e.func, ast.Name) and e.func.id == "DESCEND__" and len(e.args) == 1:
             a, ta = self.expr(e.args[0], env)
             if ta != "nodes":
@@ -160,6 +176,10 @@ class TreeFn:
             if t == "trn":
                 if e.attr == "forbidden":
                     return f"(t_forbidden {recv})", "bool"
+                if e.attr == "reenter":
+                    return f"(t_reenter {recv})", "bool"
+                if e.attr == "target_str":
+                    return f"(has_target {recv})", "bool"
                 if e.attr == "event":
                     return f"(t_event {recv})", "str"
                 if e.attr == "source":
@@ -1055,6 +1075,7 @@ def translate_all(src_root=None):
     out.append(translate_descent(src_root, known, known_params, known_recursive))
     out.append(translate_skeletons(src_root))
     out.append(translate_process_event(src_root, known, known_params, known_recursive))
+    out.append(translate_dispatch(src_root, known, known_params, known_recursive))
     return "\n".join(out)
 
 
@@ -1532,6 +1553,83 @@ def translate_process_event(src_root, known, known_params, known_recursive):
         seg = ast.get_source_segment(text, fdef) or ""
         out.append(f"(* {fname} :: _process_event  sha256[:16]={hashlib.sha256(seg.encode()).hexdigest()[:16]}: shape checked (select; nothing selected -> return; "
                    f"for each selected: skip if stale, else execute); the skip test *)")
+        out.append(fn.translate())
+    return "\n".join(out)
+
+
+# ---------------------------------------------------------------------------------------------------------------------
+# _execute_transition (asyncio engine) / _execute_transition_sync: HOW a selected transition is dispatched - actions only
+# (no target), StateNotFoundError, internal (target = source, no reenter), or external with the resolved target.  The target
+# resolution itself is the model's pre-resolved `t_target` (tied by K-resolve, property C18).
+def _actions_only_block_ok(stmts):
+    """[logger]; [await] self._execute_actions(transition.actions, event); for plug in self._plugins: plug.on_transition(...); return"""
+    seen = []
+    for st in stmts:
+        if _is_logger(st):
+            continue
+        c = _call_of(st)
+        if c is not None and ast.unparse(c) == "self._execute_actions(transition.actions, event)":
+            seen.append("actions")
+        elif isinstance(st, ast.For) and ast.unparse(st.iter) == "self._plugins" and len(st.body) == 1 and _call_of(st.body[0]) is not None \
+                and ast.unparse(_call_of(st.body[0]).func).endswith(".on_transition"):
+            seen.append("hook")
+        elif isinstance(st, ast.Return) and st.value is None:
+            seen.append("return")
+        else:
+            return False
+    return seen == ["actions", "hook", "return"]
+
+
+def translate_dispatch(src_root, known, known_params, known_recursive):
+    out = []
+    for fname, cls, func, coqname, resolver in (("base_interpreter.py", "BaseInterpreter", "_execute_transition", "dispatch_async", "_resolve_target_state_node"),
+                                                ("sync_interpreter.py", "SyncInterpreter", "_execute_transition_sync", "dispatch_sync", "_resolve_target_state_robustly")):
+        text, fdef = _find_method(src_root, fname, cls, func)
+        src = f"{fname}:{func}"
+        body = [st for st in fdef.body if not _is_logger(st) and not (isinstance(st, ast.Expr) and isinstance(st.value, ast.Constant))]
+        new = []
+        i = 0
+
+        def bad(why):
+            raise Untranslatable(f"{src}: dispatch: {why}")
+        if not (isinstance(body[0], ast.If) and ast.unparse(body[0].test) == "not transition.target_str" and not body[0].orelse
+                and _actions_only_block_ok(body[0].body)):
+            bad("expected `if not transition.target_str: <actions; on_transition hooks; return>`")
+        new.append(ast.If(test=body[0].test, body=ast.parse("return TARGETLESS__").body, orelse=[]))
+        if ast.unparse(body[1]) != f"target_state = self.{resolver}(transition)":
+            bad("expected the target to be resolved next")
+        new += ast.parse("target_state = RESOLVE__(transition)").body
+        i = 2
+        if isinstance(body[i], ast.If) and ast.unparse(body[i].test) == "target_state is None":
+            if not (len(body[i].body) == 1 and isinstance(body[i].body[0], ast.Raise) and ast.unparse(body[i].body[0].exc).startswith("StateNotFoundError(")):
+                bad("an unresolvable target must raise StateNotFoundError")
+            i += 1
+        elif resolver != "_resolve_target_state_robustly":
+            bad("no check of the resolved target")
+        # (the sync resolver raises StateNotFoundError itself when every strategy fails)
+        new += ast.parse("if target_state is None:\n    return NOTFOUND__").body
+        st = body[i]
+        if not (isinstance(st, ast.If) and ast.unparse(st.test) == "target_state == transition.source and (not transition.reenter)" and not st.orelse
+                and _actions_only_block_ok(st.body)):
+            bad("expected `if target_state == transition.source and not transition.reenter: <actions; hooks; return>`: " + ast.unparse(st.test))
+        new.append(ast.If(test=st.test, body=ast.parse("return INTERNAL__").body, orelse=[]))
+        rest = body[i + 1:]
+        if resolver == "_resolve_target_state_robustly":
+            if [ast.unparse(x) for x in rest] != ["self._process_single_transition(transition, event, target_state)"]:
+                bad("expected the external part to be _process_single_transition(transition, event, target_state)")
+        elif not rest or "snapshot_before" not in ast.unparse(rest[0]):
+            bad("expected the external part to start with the configuration snapshot")
+        new += ast.parse("return EXTERNAL__(target_state)").body
+        synth = ast.FunctionDef(name=func, args=ast.arguments(posonlyargs=[], args=[ast.arg(arg="self"), ast.arg(arg="transition")],
+                                                               kwonlyargs=[], kw_defaults=[], defaults=[]),
+                                body=new, decorator_list=[], lineno=fdef.lineno)
+        ast.fix_missing_locations(synth)
+        spec = dict(func=func, coqname=coqname, params=[("transition", "trn")], ret="dispatch", needs=[])
+        fn = TreeFn(synth, spec, src, known)
+        fn.known_params = known_params
+        fn.known_recursive = known_recursive
+        seg = ast.get_source_segment(text, fdef) or ""
+        out.append(f"(* {fname} :: {func}  sha256[:16]={hashlib.sha256(seg.encode()).hexdigest()[:16]}: how a selected transition is dispatched *)")
         out.append(fn.translate())
     return "\n".join(out)
 
